@@ -10,7 +10,7 @@ COMMON_NOTE = ('Decided for the pure-Python implementations imported from /repo/
                'so .pyx accelerators cannot be rebuilt or observed). Bounded: silent outside the stated alphabet/depth. ')
 
 # properties whose check is complete enough to be claimed
-BUILT = {'C01','C02','C03','C04','C05','C06','C07','C08','C09','C10','C11','C12','C14','C15','C16','C17','C18','C19','C20'}
+BUILT = {'C01','C02','C03','C04','C05','C06','C07','C08','C09','C10','C11','C12','C13','C14','C15','C16','C17','C18','C19','C20'}
 
 # id -> (category, technique, text, note, design_ref)
 T = {
